@@ -15,6 +15,19 @@ import (
 
 func cgText(n ast.Node) string { return strings.Join(strings.Fields(exprString(n)), " ") }
 
+// cgStmtText prints a statement without comments (the node is printed alone, so only comments attached to
+// declarations inside it could appear; those are removed line-wise)
+func cgStmtText(n ast.Node) string {
+	var lines []string
+	for _, l := range strings.Split(exprString(n), "\n") {
+		if i := strings.Index(l, "//"); i >= 0 {
+			l = l[:i]
+		}
+		lines = append(lines, l)
+	}
+	return strings.Join(strings.Fields(strings.Join(lines, " ")), " ")
+}
+
 // componentIsValid body: a single return of a Boolean expression over the parameter
 func cgCompExpr(e ast.Expr, f string) (string, error) {
 	switch x := e.(type) {
@@ -343,6 +356,26 @@ func init() {
 		if err != nil {
 			return "", err
 		}
+		// the arithmetic bodies the model transcribes by hand, pinned statement by statement (comments and layout
+		// do not matter, any change of an expression does)
+		type pin struct {
+			file *ast.File
+			recv string
+			name string
+		}
+		var pinned []string
+		for _, pn := range []pin{{cl, "Client", "latencyFilter"}, {cl, "Client", "updateVivaldi"}, {cl, "Client", "updateAdjustment"},
+			{cl, "Client", "updateGravity"}, {cf, "Coordinate", "ApplyForce"}, {cf, "", "unitVectorAt"}, {cf, "", "NewCoordinate"}} {
+			fd := findFunc(pn.file, pn.recv, pn.name)
+			if fd == nil {
+				return "", fmt.Errorf("%s not found", pn.name)
+			}
+			var sts []string
+			for _, st := range fd.Body.List {
+				sts = append(sts, fmt.Sprintf("%q", cgStmtText(st)))
+			}
+			pinned = append(pinned, fmt.Sprintf("  (%q, [\n    %s])", pn.name, strings.Join(sts, ",\n    ")))
+		}
 		var sb strings.Builder
 		sb.WriteString("-- GENERATED by /verif/extract (coordguards.go) from coordinate/coordinate.go, coordinate/client.go and\n")
 		sb.WriteString("-- serf/ping_delegate.go — do not edit.\n")
@@ -353,6 +386,7 @@ func init() {
 		fmt.Fprintf(&sb, "/-- the round-trip-time guard of Client.Update (client.go), in nanoseconds -/\ndef rttGuard : RttGuard := %s\n\n", guard)
 		fmt.Fprintf(&sb, "/-- Client.Update (client.go), statements in source order -/\ndef update : List UpdateStep := %s\n\n", steps)
 		fmt.Fprintf(&sb, "/-- pingDelegate.NotifyPingComplete (serf/ping_delegate.go), statements in source order -/\ndef notifyPingComplete : List PingStep := %s\n\n", ping)
+		fmt.Fprintf(&sb, "/-- the statements (comments stripped, whitespace normalised) of the arithmetic functions the model transcribes -/\ndef pinned : List (String × List String) := [\n%s]\n\n", strings.Join(pinned, ",\n"))
 		sb.WriteString("end SerfModel.Gen.CoordGuards\n")
 		return sb.String(), nil
 	})
